@@ -25,6 +25,17 @@ type env struct {
 	cli     string
 	mod     string
 	gomod   string
+	soft    bool // best-effort mode (program minimisation): failures panic(softFail) instead of ending the check
+}
+
+type softFail string
+
+// fail ends the check as BROKEN, or unwinds a best-effort step.
+func (e *env) fail(format string, a ...any) {
+	if e.soft {
+		panic(softFail(fmt.Sprintf(format, a...)))
+	}
+	drv.Broken(format, a...)
 }
 
 // Env is what engine B reuses from this engine: scratch copy, real CLI, user module.
@@ -98,7 +109,7 @@ type batchStats struct {
 	GenWall, BuildWall, SimWall                   float64
 }
 
-var reBuildErr = regexp.MustCompile(`(?m)^((?:gen|sim)/(p\d+)/([A-Za-z0-9_]+\.go)):(\d+):(?:\d+:)? (.*)$`)
+var reBuildErr = regexp.MustCompile(`(?m)^((?:gen|sim)/([a-z]\d+)/([A-Za-z0-9_]+\.go)):(\d+):(?:\d+:)? (.*)$`)
 
 func classifyCompileError(msg string) string {
 	switch {
@@ -144,18 +155,18 @@ func (e *env) buildBatch(prop string, seed uint64, batch, n int, prof progen.Pro
 	for _, p := range progs {
 		p.dir = filepath.Join(e.mod, "gen", p.spec.Pkg)
 		if err := os.MkdirAll(p.dir, 0o755); err != nil {
-			drv.Broken("%v", err)
+			e.fail("%v", err)
 		}
 		for name, src := range p.spec.Files() {
 			if err := os.WriteFile(filepath.Join(p.dir, name), []byte(src), 0o644); err != nil {
-				drv.Broken("%v", err)
+				e.fail("%v", err)
 			}
 		}
 		st.InjectorsDrawn += len(p.spec.Injectors)
 	}
 	// our own sources must compile before the generator is blamed for anything
 	if r := drv.Run(e.mod, 10*time.Minute, nil, "go", "build", "./gen/..."); r.Err != nil {
-		drv.Broken("progen produced packages that do not compile before generation (harness bug):\n%s", firstLines(string(r.Out), 30))
+		e.fail("progen produced packages that do not compile before generation (harness bug):\n%s", firstLines(string(r.Out), 30))
 	}
 	// the real generator, 16 processes side by side
 	var mu sync.Mutex
@@ -173,7 +184,7 @@ func (e *env) buildBatch(prop string, seed uint64, batch, n int, prof progen.Pro
 		for _, inv := range invocations {
 			r := drv.Run(p.dir, 5*time.Minute, nil, e.cli, append([]string{"-l", "error"}, inv...)...)
 			if r.Code == -2 {
-				drv.Broken("generator timed out on %s", p.dir)
+				drv.Broken("generator timed out on %s", p.dir) //nolint
 			}
 			if r.Code != 0 {
 				mu.Lock()
@@ -205,7 +216,7 @@ func (e *env) buildBatch(prop string, seed uint64, batch, n int, prof progen.Pro
 		}
 		ms := reBuildErr.FindAllStringSubmatch(string(r.Out), -1)
 		if len(ms) == 0 {
-			drv.Broken("go build of the generated packages failed in a way the driver cannot attribute (%v):\n%s", r.Err, firstLines(string(r.Out), 30))
+			e.fail("go build of the generated packages failed in a way the driver cannot attribute (%v):\n%s", r.Err, firstLines(string(r.Out), 30))
 		}
 		removed := 0
 		for _, m := range ms {
@@ -215,7 +226,7 @@ func (e *env) buildBatch(prop string, seed uint64, batch, n int, prof progen.Pro
 					continue
 				}
 				if !strings.HasSuffix(file, "_band.go") {
-					drv.Broken("compile error outside a generated file (harness bug): %s", m[0])
+					e.fail("compile error outside a generated file (harness bug): %s", m[0])
 				}
 				if _, seen := p.badBand[file]; !seen {
 					p.badBand[file] = msg
@@ -226,7 +237,7 @@ func (e *env) buildBatch(prop string, seed uint64, batch, n int, prof progen.Pro
 			}
 		}
 		if removed == 0 {
-			drv.Broken("go build keeps failing:\n%s", firstLines(string(r.Out), 30))
+			e.fail("go build keeps failing:\n%s", firstLines(string(r.Out), 30))
 		}
 	}
 	// instrumented copies
@@ -251,11 +262,11 @@ func (e *env) buildBatch(prop string, seed uint64, batch, n int, prof progen.Pro
 		for _, b := range good {
 			src, err := os.ReadFile(filepath.Join(p.dir, b))
 			if err != nil {
-				drv.Broken("%v", err)
+				e.fail("%v", err)
 			}
 			out, info, err := instr.File(b, src)
 			if err != nil {
-				drv.Broken("instrumenter: %s/%s: %v", p.spec.Pkg, b, err)
+				e.fail("instrumenter: %s/%s: %v", p.spec.Pkg, b, err)
 			}
 			_ = os.WriteFile(filepath.Join(sim, b), out, 0o644)
 			declared := map[string]bool{}
@@ -282,14 +293,14 @@ func (e *env) buildBatch(prop string, seed uint64, batch, n int, prof progen.Pro
 		jobProgs = append(jobProgs, &harness.Program{Spec: p.spec, Live: p.live})
 	}
 	if len(jobProgs) == 0 {
-		drv.Broken("no generated program survived generation and compilation (rejected=%d, reasons=%v, compile failures=%v)", st.Rejected, st.RejectReasons, st.CompileFailures)
+		e.fail("no generated program survived generation and compilation (rejected=%d, reasons=%v, compile failures=%v)", st.Rejected, st.RejectReasons, st.CompileFailures)
 	}
 	mainSrc := "package main\n\nimport (\n\t\"verif/rt/harness\"\n" + strings.Join(mainImports, "\n") + "\n)\n\nfunc main() {\n\tharness.Main(func(r *harness.Registry) {\n" + strings.Join(mainCalls, "\n") + "\n\t})\n}\n"
 	_ = os.MkdirAll(filepath.Join(e.mod, "cmd", "batch"), 0o755)
 	_ = os.WriteFile(filepath.Join(e.mod, "cmd", "batch", "main.go"), []byte(mainSrc), 0o644)
 	bin := filepath.Join(e.scratch, fmt.Sprintf("batch-%s-%d", prop, batch))
 	if r := drv.Run(e.mod, 20*time.Minute, nil, "go", "build", "-o", bin, "./cmd/batch"); r.Err != nil {
-		drv.Broken("building the instrumented batch failed (instrumenter or runtime bug, never a violation):\n%s", firstLines(string(r.Out), 40))
+		e.fail("building the instrumented batch failed (instrumenter or runtime bug, never a violation):\n%s", firstLines(string(r.Out), 40))
 	}
 	st.BuildWall = time.Since(t1).Seconds()
 	// keep only what run() needs
@@ -383,7 +394,7 @@ func (e *env) run(bin string, job harness.Job) []*harness.Output {
 	})
 	for _, f := range fails {
 		if f != "" {
-			drv.Broken("batch %s", f)
+			e.fail("batch %s", f)
 		}
 	}
 	return outs
